@@ -11,15 +11,17 @@ cov/corr, len; Series and DataFrame targets; axis 0/1 where dask has axis=1; ski
 (sum/prod), ddof (var/std/sem), split_every in {2, 3, False, None, omitted}; columns int64 / str / float with
 NaN / float / bool / datetime / categorical / nullable Int64 / nullable boolean; partitionings by from_pandas
 (npartitions, chunksize incl. single-row partitions), from_map / from_delayed row slices INCLUDING EMPTY
-partitions, cleared divisions.  pandas raising -> reject.  min_periods (cov/corr) is left at its default; dask's
-nlargest/nsmallest have no `keep`.
+partitions, cleared divisions.  pandas raising -> reject.  dask's nlargest/nsmallest have no `keep`.
 
 Keyword x tree stratum (`kwtree` cases).  "Equal pandas for any split_every" includes every keyword of the pandas
 signature that the dask method accepts: its effect has to survive the intermediate combine level(s) of the tree
 reduction (or the shuffle of the split_out path).  For every operation x target the stratum enumerates each
 non-default keyword value ALONE (plus random combinations): skipna=False, numeric_only=True (frame holding a
 non-numeric column), min_count in {1, 2, valid+1, 1000}, ddof in {0, 2}, axis=1, value_counts sort in {True, False} /
-ascending=True / dropna=False / normalize=True, nunique/mode dropna=False, nlargest/nsmallest n in {1,2,3,7,40};
+ascending=True / dropna=False / normalize=True, nunique/mode dropna=False, nlargest/nsmallest n in {1,2,3,7,40},
+cov/corr min_periods in {jmin, jmin+1, jmax, jmax+1, 3, 5} (jmin/jmax = smallest/largest number of jointly valid rows
+over the column pairs, diagonal included: values above and below the joint count of some pair) on NaN-heavy c and d
+(`sparse`: 60-65 % NaN, or `joint2`: the pair (c, d) has exactly 2 jointly valid rows - the default boundary);
 x split_every in {2, 3 on 5-11 partitions; None or omitted (= 8) on 9-17 partitions} so that an intermediate combine
 level exists; x split_out in {omitted, 1, True, 2} for the Series methods that accept it (value_counts, nunique,
 unique); Series.unique is generated here as the split_out companion of nunique.  Data: 10-45 rows, NaN/NA bearing
@@ -78,7 +80,10 @@ Calibration (false alarms corrected)
   from one mechanism into another that merely has the same coarse symptom.
 * var/std/sem with ddof >= number of valid values on a NULLABLE column: pandas answers inf there (numpy's M/0 in
   the masked reduction) but NaN for numpy-backed columns; no single pandas rule -> rejected.
-* min_periods is not generated (Cov ignores min_periods > 2: seen during calibration, outside the stated domain).
+* min_periods (cov/corr, frame and series): generated with values >= 2 only - dask documents "min_periods must be
+  >= 2" and pandas' 0/1 give the same numbers as 2 (a pair with fewer than 2 joint rows is NaN anyway).  That Cov
+  ignores an explicit min_periods was first set aside as outside the domain; it is a keyword of the pandas signature
+  that dask accepts, so it is now checked (known finding `cov/corr:min_periods>2:lost-NA`, fix in fixes_ready/C37_05).
 * mode(dropna=False): pandas puts a missing mode FIRST for categorical / datetime columns (sorted by code / i8) and
   LAST otherwise, dask always last; the place of the missing marker among the sorted modes is an accident of the
   pandas code path -> missing entries are moved to the end on both sides before the ordered comparison.
@@ -253,6 +258,9 @@ PENDING = {
     'nunique:signed-zero&multi-partition:values':
         'nunique counts -0.0 and +0.0 as two values when the data is spread over several partitions (hash shuffle of the '
         'split_out path; value_counts() and unique() with split_out != 1 list both zeros for the same reason)',
+    'cov/corr:min_periods>2:lost-NA':
+        'DataFrame/Series cov/corr ignore an explicit min_periods: Cov.aggregate_kwargs does not forward it, the aggregate '
+        'step always uses 2 (fix offered: fixes_ready/C37_05)',
     'value_counts:categorical-column&split_out>1:length':
         'Series.value_counts(split_out=True|2) of a categorical column repeats categories with count 0: an empty disk-shuffle '
         'output partition is handed the non-empty chunk meta (fix offered: fixes_ready/C37_04)',
@@ -351,7 +359,7 @@ SPLIT_OUT_OPS = ("value_counts", "nunique", "unique")        # Series methods th
 DEFAULT_TREE_OPS = ("value_counts", "nlargest", "nsmallest", "unique")   # split_every defaults to None (= 8)
 DROPNA_OPS = ("value_counts", "nunique", "unique", "mode", "count")
 KW_DEFAULTS = {"skipna": True, "numeric_only": False, "min_count": 0, "ddof": 1, "axis": 0, "sort": None,
-               "ascending": False, "dropna": True, "normalize": False, "n": 5}
+               "ascending": False, "dropna": True, "normalize": False, "n": 5, "min_periods": None}
 SPLIT_OUTS = ("omit", 1, True, 2)
 
 
@@ -372,6 +380,10 @@ def _kw_table(op, target):
         t["dropna"] = (False,)
     if op in ("nlargest", "nsmallest"):
         t["n"] = (1, 2, 3, 7, 40)
+    if op in ("cov", "corr"):
+        # relative to the joint (pairwise non-missing) counts of the used columns, diagonal included: jmin+1 puts at
+        # least one pair below the threshold, jmax keeps at least one pair at it; dask documents min_periods >= 2
+        t["min_periods"] = ("jmin+1", "jmax", "jmax+1", "jmin", 3, 5)
     if op in AXIS1_OPS and target == "frame":
         t["axis"] = (1,)
     return t
@@ -480,6 +492,14 @@ def _kw_case(rng, op, target, table, single, se, so, extra_p):
         if op in ("nlargest", "nsmallest"):
             cs = [c for c in case["cols"] if c in "acdnt"] or case["cols"]
             kw["columns"] = rng.choice(cs) if rng.random() < 0.7 else rng.sample(cs, min(2, len(cs)))
+    if op in ("cov", "corr") and ("min_periods" in kw or rng.random() < 0.4):
+        # NaN-heavy c and d: few jointly valid rows per column pair ("joint2": the pair (c, d) has exactly 2)
+        case["sparse"] = rng.choice(("heavy", "heavy", "joint2"))
+        if target == "series":
+            if rng.random() < 0.8:
+                case["col"], case["col2"] = rng.choice((("c", "d"), ("d", "c"), ("c", "a"), ("d", "n"), ("e", "c")))
+        else:
+            case["cols"] = list(case["cols"]) + [x for x in "cd" if x not in case["cols"]]
     return case
 
 
@@ -590,6 +610,24 @@ def _frame(case):
         for col in case["na"]:
             mask = np.random.default_rng([case["seed"], ord(col)]).random(len(pdf)) < 0.25
             pdf[col] = pdf[col].mask(mask)
+    if case.get("sparse") and len(pdf):                   # NaN-heavy float columns c and d (cov/corr)
+        import numpy as np
+
+        r = np.random.default_rng([case["seed"], 77])
+        n = len(pdf)
+        if case["sparse"] == "joint2" and n >= 6:
+            perm = r.permutation(n)
+            ka, kb = int(r.integers(1, max(2, (n - 2) // 2))), int(r.integers(1, max(2, (n - 2) // 2)))
+            both, only_c, only_d = perm[:2], perm[2:2 + ka], perm[2 + ka:2 + ka + kb]
+            keep_c, keep_d = np.zeros(n, bool), np.zeros(n, bool)
+            keep_c[both] = keep_c[only_c] = True
+            keep_d[both] = keep_d[only_d] = True
+            cvals = pdf["c"].fillna(0.25)                 # the 2 joint rows must hold values in both columns
+            pdf["c"] = cvals.where(keep_c)
+            pdf["d"] = pdf["d"].where(keep_d)
+        else:
+            pdf["c"] = pdf["c"].where(r.random(n) >= 0.65)
+            pdf["d"] = pdf["d"].where(r.random(n) >= 0.6)
     if case.get("flat"):                                  # valid values of c / n / m all falsy (any) or truthy (all)
         v = case["flat"] == "all"
         pdf["c"] = pdf["c"].where(pdf["c"].isna(), 1.0 if v else 0.0)
@@ -653,6 +691,13 @@ def _resolve(case, pdf):
     if case["kw"].get("min_count") == "v+1":
         v = min([int(pdf[c].notna().sum()) for c in _used_columns(case)] or [0])
         case = _variant(case, kw_min_count=v + 1)
+    mp = case["kw"].get("min_periods")
+    if isinstance(mp, str):
+        # joint (pairwise non-missing) counts over the numeric columns used, diagonal included
+        cols = [c for c in _used_columns(case) if c in NUMBOOL]
+        joint = [int((pdf[x].notna() & pdf[y].notna()).sum()) for i, x in enumerate(cols) for y in cols[i:]] or [0]
+        v = (min(joint) if mp.startswith("jmin") else max(joint)) + (1 if mp.endswith("+1") else 0)
+        case = _variant(case, kw_min_periods=max(2, v))
     return case
 
 
@@ -751,7 +796,11 @@ def _facts(case, pdf, parts):
         z = pdf["c"].to_numpy()
         z = z[z == 0]
         sz = bool(len(z) and np.signbit(z).any() and not np.signbit(z).all())
-    return {"signed_zero": sz, "min_valid": int(min([pdf[c].notna().sum() for c in cols] or [0])), "n": len(pdf), "nparts": len(parts), "lens": lens, "empty_part": len(pdf) > 0 and 0 in lens,
+    joint2 = False
+    if case["op"] in ("cov", "corr"):
+        num = [c for c in cols if c in NUMBOOL]
+        joint2 = any(int((pdf[x].notna() & pdf[y].notna()).sum()) == 2 for i, x in enumerate(num) for y in num[i + 1:])
+    return {"joint2": joint2, "signed_zero": sz,"min_valid": int(min([pdf[c].notna().sum() for c in cols] or [0])), "n": len(pdf), "nparts": len(parts), "lens": lens, "empty_part": len(pdf) > 0 and 0 in lens,
             "allna_part": allna, "single_row_part": 1 in lens, "tree_levels": 0, "shuffle": False,
             "tree":isinstance(se, int) and not isinstance(se, bool) and len(parts) > se}
 
@@ -1113,6 +1162,9 @@ def _canonical(fam, feats, sym, cur):
         return "min/max:empty-or-all-NA-partition:dtype"
     if fam == "min/max" and exc and classes and classes <= {"str", "datetime"} and "empty-partition" in F:
         return "min/max:non-numeric-column&empty-partition:raises"
+    # R12: an explicit min_periods never reaches the aggregate step (frame and series path, any partitioning)
+    if fam == "cov/corr" and "min_periods>2" in F and not classes and not exc:
+        return "cov/corr:min_periods>2:%s" % sym
     # R9: numeric_only=True leaves no column
     if fam in ("mode", "idxmin/idxmax") and "numeric_only=True" in F and exc and cols and cols <= set("btk"):
         return "%s:numeric_only=True&no-numeric-column:raises" % fam
@@ -1275,6 +1327,10 @@ def _attribute(case, out):
         feats.append("min_count>0")
     if kw.get("dropna") is False and _gone(_variant(cur, kw_dropna=_DROP), s):
         feats.append("dropna=False")
+    if kw.get("min_periods") is not None and _gone(_variant(cur, kw_min_periods=_DROP), s):
+        feats.append("min_periods>2")
+    elif cur.get("sparse") and _gone(_variant(cur, sparse=_DROP), s):
+        feats.append("sparse-pairs")            # NaN-heavy columns: few jointly valid rows per column pair
     if kw.get("normalize") and _gone(_variant(cur, kw_normalize=_DROP), s):
         feats.append("normalize=True")
     tree_path = False
@@ -1406,6 +1462,10 @@ def run_case(case, ctx):
         ctx.distinct("multi_level_tree_ops", "%s:%s" % (op, case["target"]))
     if shuf:
         ctx.count("shuffle_path_cases")
+    if facts["joint2"]:
+        ctx.count("covcorr_pair_with_2_joint_rows")        # the min_periods boundary (default 2) is exercised
+        if kw.get("min_periods") is not None:
+            ctx.count("covcorr_pair_with_2_joint_rows&min_periods")
     if multi or shuf or (kw.get("axis") == 1 and facts["nparts"] >= 5):
         se, so = repr(case.get("se", "omit")), repr(case.get("so", "omit"))
         ctx.distinct("tree_configs", (op, "tree" if multi else ("shuffle" if shuf else "rowwise"), se, so))
